@@ -1,39 +1,521 @@
 package redis
 
+// C12 — the Redis wrapper is transparent w.r.t. go-redis.
+// Harness injected by /verif (overlay); see /verif/DESIGN.md "C12".
+//
+// Differential twins: miniredis A is driven through the wrapper (*Redis), miniredis B
+// through a raw go-redis v8 client. The hand-written command table (c12_table_test.go)
+// is the reference: per wrapper command an argument generator, the raw go-redis call
+// "with the same arguments" and the documented result conversion.
+
 import (
 	"context"
+	"encoding/json"
 	"fmt"
+	"reflect"
+	"sort"
+	"strings"
+	"sync"
 	"testing"
 	"time"
 
 	"github.com/alicebob/miniredis/v2"
 	red "github.com/go-redis/redis/v8"
+	"github.com/gotid/god/lib/breaker"
+	"github.com/gotid/god/lib/logx"
+	"pgregory.net/rapid"
+	"verif.local/kit"
 )
 
-func TestVerif_C12_spike(t *testing.T) {
-	m, _ := miniredis.Run()
-	defer m.Close()
-	r := New(m.Addr())
-	ctx, cancel := context.WithCancel(context.Background())
-	cancel()
-	for i := 0; i < 20; i++ {
-		_, err := r.GetCtx(ctx, "a")
-		fmt.Printf("%d cancelled: %T %v eq=%v\n", i, err, err, err == context.Canceled)
+// ---------------------------------------------------------------- case data
+
+type c12Step struct {
+	C string    `json:"c"`           // table entry name, "advance" or "pipeline"
+	X bool      `json:"x,omitempty"` // true: the ...Ctx method is called, false: the plain one
+	K []string  `json:"k,omitempty"` // keys
+	S []string  `json:"s,omitempty"` // values / fields / members / patterns
+	I []int64   `json:"i,omitempty"` // integers (indices, counts, scores, seconds)
+	F []float64 `json:"f,omitempty"` // floats
+	P []c12Step `json:"p,omitempty"` // pipeline: queued commands
+}
+
+type c12Case struct {
+	Steps []c12Step `json:"steps"`
+}
+
+// ---------------------------------------------------------------- environment
+
+type c12Twins struct {
+	mA, mB *miniredis.Miniredis
+	admA   *red.Client // raw client to A: used for housekeeping only (SCRIPT FLUSH)
+	rawB   *red.Client // the reference client
+	blockA ClosableNode
+}
+
+var (
+	c12Once sync.Once
+	c12T    c12Twins
+	c12T0   = time.Date(2030, 1, 1, 0, 0, 0, 0, time.UTC)
+)
+
+type c12CtxKey struct{}
+
+func c12Setup(t *testing.T) *c12Twins {
+	c12Once.Do(func() {
+		logx.Disable()
+		var err error
+		if c12T.mA, err = miniredis.Run(); err != nil {
+			t.Fatalf("miniredis A: %v", err)
+		}
+		if c12T.mB, err = miniredis.Run(); err != nil {
+			t.Fatalf("miniredis B: %v", err)
+		}
+		c12T.admA = red.NewClient(&red.Options{Addr: c12T.mA.Addr()})
+		c12T.rawB = red.NewClient(&red.Options{Addr: c12T.mB.Addr()})
+		c12T.blockA, err = CreateBlockingNode(New(c12T.mA.Addr()))
+		if err != nil {
+			t.Fatalf("blocking node: %v", err)
+		}
+		// warm the shared wrapper client (clientManager) outside of any bubble
+		if !New(c12T.mA.Addr()).Ping() {
+			t.Fatalf("wrapper cannot reach miniredis A")
+		}
+	})
+	return &c12T
+}
+
+// c12Env is the state of one interpreted case.
+type c12Env struct {
+	tw      *c12Twins
+	r       *Redis
+	fails   int // breaker-relevant failures seen by the current *Redis instance
+	now     time.Time
+	classes map[string]bool
+	types   map[string]bool
+	hits    int
+	ncmd    int
+}
+
+func (e *c12Env) reset() {
+	tw := e.tw
+	for _, m := range []*miniredis.Miniredis{tw.mA, tw.mB} {
+		m.FlushAll()
+		m.SetTime(c12T0)
+		m.Seed(12)
 	}
-	_, err := r.Get("a")
-	fmt.Println("after:", err)
-	raw := red.NewClient(&red.Options{Addr: m.Addr()})
-	_, err = raw.Get(ctx, "a").Result()
-	fmt.Printf("raw cancelled: %T %v\n", err, err)
-	// cancel in flight
-	ctx2, cancel2 := context.WithCancel(context.Background())
-	go func() { time.Sleep(50 * time.Millisecond); cancel2() }()
-	bn, _ := CreateBlockingNode(r)
-	_, err = r.BLPopWithTimeoutCtx(ctx2, bn, time.Second, "nolist")
-	fmt.Printf("blpop cancelled midflight: %T %v\n", err, err)
-	m.Set("s", "x")
-	_, err = r.HGet("s", "f")
-	fmt.Printf("wrongtype: %T %v\n", err, err)
-	_, err = r.HGet("nokey", "f")
-	fmt.Printf("nil: %T %v %v\n", err, err, err == red.Nil)
+	bg := context.Background()
+	tw.admA.ScriptFlush(bg)
+	tw.rawB.ScriptFlush(bg)
+	e.now = c12T0
+	e.r = New(tw.mA.Addr())
+	e.fails = 0
+}
+
+// noteErr keeps the wrapper's per-instance breaker out of the picture: the breaker
+// counts error replies (WRONGTYPE, NOSCRIPT, ...) as failures and starts to reject
+// once failures > 5 + accepts/2 inside its window. A *Redis created by New owns a fresh
+// breaker while the connection is shared per address, so the instance is replaced
+// before a 5th failure can be recorded; with <= 4 failures the drop ratio is 0
+// whatever the window contains.
+func (e *c12Env) noteErr(err error) {
+	if err == nil || err == red.Nil || err == context.Canceled {
+		return
+	}
+	e.fails++
+	if e.fails >= 4 {
+		e.r = New(e.tw.mA.Addr())
+		e.fails = 0
+	}
+}
+
+func (e *c12Env) advance(d time.Duration) {
+	e.now = e.now.Add(d)
+	for _, m := range []*miniredis.Miniredis{e.tw.mA, e.tw.mB} {
+		m.FastForward(d)
+		m.SetTime(e.now)
+	}
+}
+
+// ---------------------------------------------------------------- comparison helpers
+
+func c12ErrStr(err error) string {
+	if err == nil {
+		return ""
+	}
+	if err == red.Nil {
+		return "<redis.Nil>"
+	}
+	return err.Error()
+}
+
+// c12Canon renders a result for comparison; nil and empty slices/maps are the same.
+func c12Canon(v any, unordered bool) string {
+	if v == nil {
+		return "null"
+	}
+	rv := reflect.ValueOf(v)
+	switch rv.Kind() {
+	case reflect.Slice, reflect.Map:
+		if rv.Len() == 0 {
+			return "empty"
+		}
+	}
+	if ss, ok := v.([]string); ok && unordered {
+		cp := append([]string(nil), ss...)
+		sort.Strings(cp)
+		v = cp
+	}
+	b, err := json.Marshal(v)
+	if err != nil {
+		return fmt.Sprintf("%#v", v)
+	}
+	return string(b)
+}
+
+// c12Snapshot is the full observable keyspace of a miniredis: type, value, TTL per key.
+func c12Snapshot(m *miniredis.Miniredis) map[string]string {
+	out := map[string]string{}
+	for _, k := range m.Keys() {
+		t := m.Type(k)
+		var val string
+		switch t {
+		case "string":
+			s, _ := m.Get(k)
+			val = fmt.Sprintf("%q", s)
+		case "hash":
+			fs, _ := m.HKeys(k)
+			sort.Strings(fs)
+			for _, f := range fs {
+				val += fmt.Sprintf("%q=%q,", f, m.HGet(k, f))
+			}
+		case "list":
+			l, _ := m.List(k)
+			val = fmt.Sprintf("%q", l)
+		case "set":
+			l, _ := m.Members(k)
+			sort.Strings(l)
+			val = fmt.Sprintf("%q", l)
+		case "zset":
+			ss, _ := m.SortedSet(k)
+			ms := make([]string, 0, len(ss))
+			for mem := range ss {
+				ms = append(ms, mem)
+			}
+			sort.Strings(ms)
+			for _, mem := range ms {
+				val += fmt.Sprintf("%q=%v,", mem, ss[mem])
+			}
+		case "hll":
+			n, _ := m.PfCount(k)
+			val = fmt.Sprintf("count=%d", n)
+		default:
+			val = "?"
+		}
+		out[k] = fmt.Sprintf("%s ttl=%v %s", t, m.TTL(k), val)
+	}
+	return out
+}
+
+func c12DiffKeyspace(a, b map[string]string) string {
+	var diffs []string
+	for k, va := range a {
+		if vb, ok := b[k]; !ok {
+			diffs = append(diffs, fmt.Sprintf("key %q only behind the wrapper: %s", k, va))
+		} else if va != vb {
+			diffs = append(diffs, fmt.Sprintf("key %q: wrapper side {%s}, go-redis side {%s}", k, va, vb))
+		}
+	}
+	for k, vb := range b {
+		if _, ok := a[k]; !ok {
+			diffs = append(diffs, fmt.Sprintf("key %q only behind raw go-redis: %s", k, vb))
+		}
+	}
+	sort.Strings(diffs)
+	return strings.Join(diffs, "; ")
+}
+
+// ---------------------------------------------------------------- interpreter
+
+func c12Ctx(x bool) context.Context {
+	if x {
+		return context.WithValue(context.Background(), c12CtxKey{}, "c12")
+	}
+	return context.Background()
+}
+
+func c12Interp(t *testing.T, c c12Case) (v kit.Verdict) {
+	tw := c12Setup(t)
+	e := &c12Env{tw: tw, classes: map[string]bool{}, types: map[string]bool{}}
+	e.reset()
+	defer func() {
+		v.NonTrivial = e.ncmd >= 10 && len(e.types) >= 3 && e.hits >= 1
+		for k := range e.classes {
+			v.Classes = append(v.Classes, k)
+		}
+		sort.Strings(v.Classes)
+	}()
+	for i, s := range c.Steps {
+		if msg := e.step(s); msg != "" {
+			v.Fail = fmt.Sprintf("step %d %s: %s", i, c12Show(s), msg)
+			return v
+		}
+		if (i+1)%10 == 0 || i == len(c.Steps)-1 {
+			if d := c12DiffKeyspace(c12Snapshot(tw.mA), c12Snapshot(tw.mB)); d != "" {
+				v.Fail = fmt.Sprintf("keyspaces differ after step %d %s: %s", i, c12Show(s), d)
+				return v
+			}
+		}
+	}
+	return v
+}
+
+func c12Show(s c12Step) string {
+	b, _ := json.Marshal(s)
+	return string(b)
+}
+
+// wellTyped: the step's first key exists on the reference server and holds the
+// data type the command is made for (the "non-empty value of its type" of the rule).
+func (e *c12Env) wellTyped(ent *c12Entry, s c12Step) bool {
+	if len(s.K) == 0 || ent.mtype == "" {
+		return false
+	}
+	k := s.K[0]
+	if ent.srcKey > 0 && ent.srcKey < len(s.K) {
+		k = s.K[ent.srcKey]
+	}
+	return e.tw.mB.Exists(k) && e.tw.mB.Type(k) == ent.mtype
+}
+
+func (e *c12Env) step(s c12Step) string {
+	switch s.C {
+	case "advance":
+		before := len(e.tw.mB.Keys())
+		e.advance(time.Duration(s.I[0]) * time.Millisecond)
+		if len(e.tw.mB.Keys()) < before {
+			e.classes["advance-expired-a-key"] = true
+		}
+		return ""
+	case "pipeline":
+		return e.pipeline(s)
+	}
+	ent := c12Table[s.C]
+	if ent == nil {
+		return "unknown command in case"
+	}
+	if ent.skip != nil && ent.skip(e, s) {
+		e.classes["skipped:"+s.C] = true
+		return ""
+	}
+	e.ncmd++
+	e.types[ent.typ] = true
+	e.classes["cmd:"+s.C] = true
+	hit := e.wellTyped(ent, s)
+	if hit {
+		e.hits++
+		e.classes["hit:"+s.C] = true
+	}
+	ctx := c12Ctx(s.X)
+	got, gerr := ent.wrap(e, ctx, s)
+	defer e.noteErr(gerr)
+	if gerr == breaker.ErrServiceUnavailable {
+		return "wrapper returned breaker.ErrServiceUnavailable on a healthy server (harness keeps failures <= 4 per instance)"
+	}
+	switch {
+	case gerr == red.Nil:
+		e.classes["reply:redis.Nil"] = true
+	case gerr != nil:
+		e.classes["reply:server-error"] = true
+	}
+	if ent.judge != nil {
+		return ent.judge(e, s, got, gerr)
+	}
+	want, werr := ent.ref(e.tw.rawB, context.Background(), s)
+	if c12ErrStr(gerr) != c12ErrStr(werr) {
+		return fmt.Sprintf("wrapper error %q, go-redis (after documented Nil mapping) %q; wrapper value %s, go-redis value %s",
+			c12ErrStr(gerr), c12ErrStr(werr), c12Canon(got, ent.unordered), c12Canon(want, ent.unordered))
+	}
+	if gerr == nil {
+		if g, w := c12Canon(got, ent.unordered), c12Canon(want, ent.unordered); g != w {
+			return fmt.Sprintf("wrapper returned %s, go-redis with the same arguments (after the documented conversion) %s", g, w)
+		}
+	}
+	return ""
+}
+
+// pipeline: the same queueing function runs inside the wrapper's Pipelined /
+// PipelinedCtx on A and inside go-redis' Pipelined on B; every queued command must
+// end with the same result and the two calls must return the same error.
+func (e *c12Env) pipeline(s c12Step) string {
+	e.ncmd++
+	e.classes["cmd:Pipelined"] = true
+	queue := func(ctx context.Context, out *[]red.Cmder) func(p red.Pipeliner) error {
+		return func(p red.Pipeliner) error {
+			for _, q := range s.P {
+				pe := c12Pipe[q.C]
+				if pe == nil {
+					return fmt.Errorf("unknown pipeline command %q", q.C)
+				}
+				*out = append(*out, pe(p, ctx, q))
+			}
+			return nil
+		}
+	}
+	var ca, cb []red.Cmder
+	ctx := c12Ctx(s.X)
+	var gerr error
+	if s.X {
+		gerr = e.r.PipelinedCtx(ctx, queue(ctx, &ca))
+	} else {
+		gerr = e.r.Pipelined(queue(ctx, &ca))
+	}
+	defer e.noteErr(gerr)
+	_, werr := e.tw.rawB.Pipelined(context.Background(), queue(context.Background(), &cb))
+	if c12ErrStr(gerr) != c12ErrStr(werr) {
+		return fmt.Sprintf("Pipelined returned %q through the wrapper, %q through go-redis", c12ErrStr(gerr), c12ErrStr(werr))
+	}
+	if len(ca) != len(cb) || len(ca) != len(s.P) {
+		return fmt.Sprintf("queued %d commands through the wrapper, %d through go-redis, want %d", len(ca), len(cb), len(s.P))
+	}
+	for i := range ca {
+		if a, b := ca[i].String(), cb[i].String(); a != b {
+			return fmt.Sprintf("pipelined command %d: wrapper side %q, go-redis side %q", i, a, b)
+		}
+	}
+	if len(s.P) > 0 {
+		e.classes["pipeline:non-empty"] = true
+	}
+	if gerr != nil {
+		e.classes["pipeline:error"] = true
+	}
+	return ""
+}
+
+// ---------------------------------------------------------------- generator
+
+type c12G struct {
+	rt      *rapid.T
+	elapsed time.Duration
+}
+
+var c12Pools = map[string][]string{
+	"string": {"s:1", "s:2", "s:3"},
+	"num":    {"n:1", "n:2"},
+	"hash":   {"h:1", "h:2"},
+	"list":   {"l:1", "l:2"},
+	"set":    {"set:1", "set:2", "set:3"},
+	"zset":   {"z:1", "z:2", "z:3"},
+	"bit":    {"bit:1", "bit:2"},
+	"hll":    {"hll:1", "hll:2"},
+	"geo":    {"geo:1"},
+}
+
+var c12AllKeys = func() []string {
+	var ks []string
+	for _, p := range c12Pools {
+		ks = append(ks, p...)
+	}
+	sort.Strings(ks)
+	return ks
+}()
+
+// key draws a key of the pool made for typ; about 1 in 12 draws comes from any pool
+// (deliberately wrong-typed).
+func (g *c12G) key(typ string) string {
+	if rapid.IntRange(0, 11).Draw(g.rt, "wrongtyped") == 0 {
+		return rapid.SampledFrom(c12AllKeys).Draw(g.rt, "anykey")
+	}
+	return rapid.SampledFrom(c12Pools[typ]).Draw(g.rt, "key")
+}
+
+func (g *c12G) keys(typ string, lo, hi int) []string {
+	n := rapid.IntRange(lo, hi).Draw(g.rt, "nkeys")
+	ks := make([]string, n)
+	for i := range ks {
+		ks[i] = g.key(typ)
+	}
+	return ks
+}
+
+func (g *c12G) from(label string, xs ...string) string {
+	return rapid.SampledFrom(xs).Draw(g.rt, label)
+}
+
+func (g *c12G) val() string    { return g.from("val", "a", "b", "c", "") }
+func (g *c12G) num() string    { return g.from("num", "10", "-3", "0", "7") }
+func (g *c12G) field() string  { return g.from("field", "f1", "f2", "f3", "f4") }
+func (g *c12G) member() string { return g.from("member", "m1", "m2", "m3", "m4") }
+
+func (g *c12G) strs(f func() string, lo, hi int) []string {
+	n := rapid.IntRange(lo, hi).Draw(g.rt, "n")
+	out := make([]string, n)
+	for i := range out {
+		out[i] = f()
+	}
+	return out
+}
+
+// idx: indices / ranks / range ends: {min, -2..5, max} plus values that do not fit 32 bits.
+func (g *c12G) idx() int64 {
+	return rapid.SampledFrom([]int64{-2, -1, 0, 1, 2, 3, 4, 5, -2, -1, 0, 1, 2, 3,
+		-(1 << 62), 1 << 62, 1<<32 + 1, -(1 << 32) - 1}).Draw(g.rt, "idx")
+}
+
+// idxInt: the same for the methods that take a Go int (64 bit here).
+func (g *c12G) idxInt() int64 { return g.idx() }
+
+// score: integer scores {-2..5} plus values beyond 32 bits (exact in float64).
+func (g *c12G) score() int64 {
+	return rapid.SampledFrom([]int64{-2, -1, 0, 1, 2, 3, 4, 5, -2, 0, 1, 3, 1 << 33, -(1 << 33), 1<<33 + 1}).Draw(g.rt, "score")
+}
+
+func (g *c12G) fscore() float64 {
+	return rapid.SampledFrom([]float64{0.5, 1.5, -2.5, 2.9, -2.9, 3, 2.5, -0.5, 4.999, 1 << 33}).Draw(g.rt, "fscore")
+}
+
+func (g *c12G) secs() int64 { return int64(rapid.IntRange(1, 100).Draw(g.rt, "secs")) }
+
+func (g *c12G) small(lo, hi int) int64 { return int64(rapid.IntRange(lo, hi).Draw(g.rt, "small")) }
+
+func c12Gen(rt *rapid.T) c12Case {
+	g := &c12G{rt: rt}
+	n := rapid.IntRange(10, 60).Draw(rt, "nsteps")
+	var c c12Case
+	for i := 0; i < n; i++ {
+		c.Steps = append(c.Steps, c12GenStep(g, true))
+	}
+	return c
+}
+
+func c12GenStep(g *c12G, top bool) c12Step {
+	roll := rapid.IntRange(0, 99).Draw(g.rt, "roll")
+	switch {
+	case top && roll < 5:
+		d := rapid.SampledFrom([]int64{500, 1000, 1500, 2000, 10000, 60000, 100000}).Draw(g.rt, "advance")
+		g.elapsed += time.Duration(d) * time.Millisecond
+		return c12Step{C: "advance", I: []int64{d}}
+	case top && roll < 10:
+		np := rapid.IntRange(0, 5).Draw(g.rt, "npipe")
+		s := c12Step{C: "pipeline", X: rapid.Bool().Draw(g.rt, "x")}
+		for j := 0; j < np; j++ {
+			name := rapid.SampledFrom(c12PipeNames).Draw(g.rt, "pipecmd")
+			q := c12Table[name].gen(g)
+			q.C = name
+			s.P = append(s.P, q)
+		}
+		return s
+	}
+	name := rapid.SampledFrom(c12Weighted).Draw(g.rt, "cmd")
+	s := c12Table[name].gen(g)
+	s.C = name
+	s.X = rapid.Bool().Draw(g.rt, "x")
+	return s
+}
+
+// ---------------------------------------------------------------- rules
+
+func TestVerif_C12_twin(t *testing.T) {
+	c12Setup(t)
+	kit.Run(t, "C12", "wrapper-twin", kit.Opts{Quick: 1500, Thorough: 48000}, c12Gen,
+		func(c c12Case) kit.Verdict { return c12Interp(t, c) })
 }
